@@ -81,7 +81,7 @@ type Ctx struct {
 const lzPath = "github.com/ulikunitz/lz"
 
 // load type-checks /repo and builds SSA.
-func load(repo, arch string, tests bool) (*Ctx, error) {
+func load(repo, arch string, tests bool, overlay ...map[string][]byte) (*Ctx, error) {
 	env := append(os.Environ(),
 		"GOFLAGS=-mod=mod", "GOPROXY=off", "GOSUMDB=off", "GOTOOLCHAIN=local",
 		"GOWORK=off", "GOOS=linux", "GOARCH="+arch, "CGO_ENABLED=0")
@@ -90,6 +90,9 @@ func load(repo, arch string, tests bool) (*Ctx, error) {
 		Dir:   repo,
 		Env:   env,
 		Tests: tests,
+	}
+	if len(overlay) > 0 && len(overlay[0]) > 0 {
+		cfg.Overlay = overlay[0]
 	}
 	pkgs, err := packages.Load(cfg, "./...")
 	if err != nil {
